@@ -2,6 +2,7 @@ package rules
 
 import (
 	"fmt"
+	"go/constant"
 	"go/token"
 	"go/types"
 
@@ -83,63 +84,191 @@ func successDominates(fn *ssa.Function, b *ssa.BasicBlock, isX func(c *ssa.Call)
 	return false
 }
 
-func runC17(e *Env) {
-	r := e.R
-	p := e.Host()
-	fn := p.Func(load.PkgProfiler, "doObjdump")
-	if fn == nil {
-		r.Unknown("E3.publish", "doObjdump", "", "not found")
-		return
-	}
-	// R = result of cachedDumpFile
-	var R ssa.Value
-	var rcall *ssa.Call
-	for _, c := range callsTo(fn, load.PkgProfiler, "cachedDumpFile") {
-		rcall = c
-		R = flow.ResultN(c, 0)
-	}
-	if R == nil {
-		r.Unknown("E3.publish", "doObjdump/R", p.Pos(fn.Pos()), "the cache path (result of cachedDumpFile) was not found")
-		return
-	}
-	failEdgeReturnsError(e, p, "E3.errbranch", "doObjdump/cachedDumpFile", rcall, false)
-	// (a) direct creation of R anywhere in the package
-	nDirect := 0
-	pathArgIs := func(c ssa.CallInstruction, v ssa.Value) bool {
-		return len(c.Common().Args) > 0 && c.Common().Args[0] == v
-	}
-	for _, c := range flow.Calls(fn) {
-		isCreate := flow.CalleeIs(c, "os", "Create") || flow.CalleeIs(c, "os", "WriteFile") || flow.CalleeIs(c, "io/ioutil", "WriteFile")
-		if flow.CalleeIs(c, "os", "OpenFile") && len(c.Common().Args) >= 2 {
-			if k, ok := flow.ConstInt(c.Common().Args[1]); !ok || k&(1|2|0x40|0x200|0x400) != 0 { // O_WRONLY|O_RDWR|O_CREAT|O_TRUNC|O_APPEND
-				isCreate = true
+// dumpProducer finds the function of the profiler whose first result is the path handed to disasm.ExtractSyscalls
+// (doObjdump on the pinned tree), by value flow rather than by name.
+func dumpProducer(p *load.Program) *ssa.Function {
+	for _, f := range p.SrcFuncs(load.PkgProfiler) {
+		for _, c := range callsTo(f, load.PkgDisasm, "ExtractSyscalls") {
+			if len(c.Call.Args) < 2 {
+				continue
 			}
-		}
-		if isCreate && pathArgIs(c, R) {
-			nDirect++
-			r.Bad("E3.publish", "doObjdump/direct-create", p.Pos(c.Pos()),
-				"the cache file is created/truncated under its final name and filled afterwards: a run interrupted while writing, or whose disassembler fails, leaves a file whose first line already carries the valid hash, and the next run reuses it (fewer syscalls)")
-		}
-		// R passed to a helper of the package that might create it
-		if call, ok := c.(*ssa.Call); ok {
-			if cal := flow.Callee(call); cal != nil && cal.Pkg != nil && cal.Pkg.Pkg.Path() == load.PkgProfiler && cal != flow.Callee(rcall) {
-				for _, a := range call.Call.Args {
-					if a == R {
-						r.Unknown("E3.publish", "doObjdump/R-passed-to/"+load.FuncName(cal), p.Pos(call.Pos()), "the cache path is handed to a helper; the analysis does not follow paths into helpers")
+			if ex, ok := flow.StripConv(c.Call.Args[1]).(*ssa.Extract); ok {
+				if dc, ok := ex.Tuple.(*ssa.Call); ok && ex.Index == 0 {
+					if cal := flow.Callee(dc); cal != nil && cal.Pkg != nil && cal.Pkg.Pkg.Path() == load.PkgProfiler {
+						return cal
 					}
 				}
 			}
 		}
 	}
-	// (b) publish by rename
+	return p.Func(load.PkgProfiler, "doObjdump")
+}
+
+// aliasesOf: the SSA values of the package that denote the same string as seed, following it into helper functions
+// (argument -> parameter), through phis and string conversions.
+func aliasesOf(p *load.Program, pkg string, seed ssa.Value) map[ssa.Value]bool {
+	al := map[ssa.Value]bool{seed: true}
+	for changed := true; changed; {
+		changed = false
+		for _, f := range p.SrcFuncs(pkg) {
+			for _, b := range f.Blocks {
+				for _, in := range b.Instrs {
+					switch x := in.(type) {
+					case *ssa.Phi:
+						if !al[x] {
+							all := len(x.Edges) > 0
+							for _, ed := range x.Edges {
+								if !al[ed] {
+									all = false
+								}
+							}
+							if all {
+								al[x] = true
+								changed = true
+							}
+						}
+					case *ssa.ChangeType:
+						if al[x.X] && !al[x] {
+							al[x] = true
+							changed = true
+						}
+					case *ssa.Call:
+						cal := flow.Callee(x)
+						if cal == nil || cal.Pkg == nil || cal.Pkg.Pkg.Path() != pkg || len(cal.Blocks) == 0 {
+							continue
+						}
+						for k, a := range x.Call.Args {
+							if al[a] && k < len(cal.Params) && !al[cal.Params[k]] {
+								al[cal.Params[k]] = true
+								changed = true
+							}
+						}
+					}
+				}
+			}
+		}
+	}
+	return al
+}
+
+// tracesTo: v satisfies pred, or is a parameter of a function of the package all of whose call sites pass a value that does.
+func tracesTo(p *load.Program, pkg string, v ssa.Value, pred func(ssa.Value) bool, depth int) bool {
+	if depth > 4 {
+		return false
+	}
+	v = flow.StripConv(v)
+	if pred(v) {
+		return true
+	}
+	prm, ok := v.(*ssa.Parameter)
+	if !ok {
+		return false
+	}
+	fn := prm.Parent()
+	idx := -1
+	for k, q := range fn.Params {
+		if q == prm {
+			idx = k
+		}
+	}
+	n := 0
+	for _, f := range p.SrcFuncs(pkg) {
+		for _, c := range flow.Calls(f) {
+			if flow.Callee(c) != fn {
+				continue
+			}
+			n++
+			if idx >= len(c.Common().Args) || !tracesTo(p, pkg, c.Common().Args[idx], pred, depth+1) {
+				return false
+			}
+		}
+	}
+	return n > 0
+}
+
+// trueAlternatives: the condition sets under which the boolean v, evaluated at the end of block b, is true.
+func trueAlternatives(v ssa.Value, b *ssa.BasicBlock, extra []flow.Cond, depth int) [][]flow.Cond {
+	if depth > 6 {
+		return [][]flow.Cond{nil}
+	}
+	base := func() []flow.Cond { return append(append([]flow.Cond{}, flow.DomConds(b)...), extra...) }
+	switch x := v.(type) {
+	case *ssa.Const:
+		if x.Value == nil || !constant.BoolVal(x.Value) {
+			return nil
+		}
+		return [][]flow.Cond{base()}
+	case *ssa.Phi:
+		var out [][]flow.Cond
+		for i, ed := range x.Edges {
+			pred := x.Block().Preds[i]
+			var ex []flow.Cond
+			if ifi, ok := flow.LastIf(pred); ok && len(pred.Succs) == 2 && pred.Succs[0] != pred.Succs[1] {
+				ex = append(ex, flow.Cond{V: ifi.Cond, Pol: pred.Succs[0] == x.Block(), At: ifi})
+			}
+			out = append(out, trueAlternatives(ed, pred, ex, depth+1)...)
+		}
+		return out
+	}
+	return [][]flow.Cond{append(base(), flow.Cond{V: v, Pol: true})}
+}
+
+func runC17(e *Env) {
+	r := e.R
+	p := e.Host()
+	fn := dumpProducer(p)
+	if fn == nil {
+		r.Unknown("E3.publish", "doObjdump", "", "the function that produces the disassembly file was not found")
+		return
+	}
+	D := load.FuncName(fn)
+	// R = the path the producer returns on success: one call result in the producer
+	var R ssa.Value
+	for _, ret := range flow.Returns(fn) {
+		rs := flow.RetResults(ret)
+		if len(rs) != 2 || !flow.IsNilConst(rs[1]) {
+			continue
+		}
+		if R != nil && rs[0] != R {
+			r.Unknown("E3.publish", D+"/R", p.Pos(ret.Pos()), "success returns yield different path values")
+			return
+		}
+		R = rs[0]
+	}
+	var rcall *ssa.Call
+	if ex, ok := R.(*ssa.Extract); ok {
+		rcall, _ = ex.Tuple.(*ssa.Call)
+	}
+	if rcall == nil || flow.Callee(rcall) == nil {
+		r.Unknown("E3.publish", D+"/R", p.Pos(fn.Pos()), "the cache path (the value returned on success) is not the result of a path-computing call")
+		return
+	}
+	failEdgeReturnsError(e, p, "E3.errbranch", D+"/"+calleeName(rcall), rcall, false)
+	isR := aliasesOf(p, load.PkgProfiler, R)
+	// (a) direct creation of R anywhere in the package; (b) publish by rename
+	nDirect := 0
 	var renames []*ssa.Call
-	for _, c := range callsTo(fn, "os", "Rename") {
-		if len(c.Call.Args) == 2 && c.Call.Args[1] == R {
-			renames = append(renames, c)
+	for _, f := range p.SrcFuncs(load.PkgProfiler) {
+		for _, c := range flow.Calls(f) {
+			args := c.Common().Args
+			isCreate := flow.CalleeIs(c, "os", "Create") || flow.CalleeIs(c, "os", "WriteFile") || flow.CalleeIs(c, "io/ioutil", "WriteFile")
+			if flow.CalleeIs(c, "os", "OpenFile") && len(args) >= 2 {
+				if k, ok := flow.ConstInt(args[1]); !ok || k&(1|2|0x40|0x200|0x400) != 0 { // O_WRONLY|O_RDWR|O_CREAT|O_TRUNC|O_APPEND
+					isCreate = true
+				}
+			}
+			if isCreate && len(args) > 0 && isR[args[0]] {
+				nDirect++
+				r.Bad("E3.publish", load.FuncName(f)+"/direct-create", p.Pos(c.Pos()),
+					"the cache file is created/truncated under its final name and filled afterwards: a run interrupted while writing, or whose disassembler fails, leaves a file whose first line already carries the valid hash, and the next run reuses it (fewer syscalls)")
+			}
+			if call, ok := c.(*ssa.Call); ok && flow.CalleeIs(c, "os", "Rename") && len(args) == 2 && isR[args[1]] {
+				renames = append(renames, call)
+			}
 		}
 	}
 	if nDirect == 0 && len(renames) == 0 {
-		r.Bad("E3.publish", "doObjdump/publish", p.Pos(fn.Pos()), "the cache path is neither created directly nor published by os.Rename: the writer was not recognised")
+		r.Bad("E3.publish", D+"/publish", p.Pos(fn.Pos()), "the cache path is neither created directly nor published by os.Rename: the writer was not recognised")
 	}
 	isRun := func(c *ssa.Call) bool {
 		return flow.CalleeIs(c, "os/exec", "Cmd.Run") || flow.CalleeIs(c, "os/exec", "Cmd.Wait") || flow.CalleeIs(c, "os/exec", "Cmd.Output") || flow.CalleeIs(c, "os/exec", "Cmd.CombinedOutput")
@@ -148,7 +277,9 @@ func runC17(e *Env) {
 	isClose := func(c *ssa.Call) bool {
 		return flow.CalleeIs(c, "os", "File.Close") || flow.CalleeIs(c, "os", "File.Sync")
 	}
+	isPublish := func(c *ssa.Call) bool { return isRenameOf(c, renames) }
 	for _, rn := range renames {
+		P := rn.Parent()
 		for _, req := range []struct {
 			name string
 			is   func(c *ssa.Call) bool
@@ -158,78 +289,86 @@ func runC17(e *Env) {
 			{"flush-success", isFlush, "unflushed buffered output would be published as complete"},
 			{"close-success", isClose, "a failed write-back at close would be published as complete"},
 		} {
-			r.Check(successDominates(fn, rn.Block(), req.is, 0), "E3.publish", "doObjdump/rename-after-"+req.name, p.Pos(rn.Pos()),
+			r.Check(successDominates(P, rn.Block(), req.is, 0), "E3.publish", "writer/rename-after-"+req.name, p.Pos(rn.Pos()),
 				"the publishing rename is dominated by the checked "+req.name, "the rename that publishes the cache is not dominated by the checked "+req.name+": "+req.why)
 		}
-		// the temp file must live in the same directory: tmp path derives from filepath.Dir(R) or R + suffix
-		failEdgeReturnsErrorAllow(e, p, "E3.publish", "doObjdump/rename-error", rn, false, cleanupCall)
+		failEdgeReturnsErrorAllow(e, p, "E3.publish", "writer/rename-error", rn, false, cleanupCall)
+		// when the rename sits in a helper, the helper reports success only behind it, all the way up to the producer
+		if P != fn {
+			r.Check(establishes(P, isPublish, 0), "E3.publish", load.FuncName(P)+"/nil-only-after-rename", p.Pos(rn.Pos()),
+				"the helper that publishes the cache returns nil only behind the successful rename", "the helper "+load.FuncName(P)+" can return nil without having renamed the complete file into place")
+		}
 	}
-	// buffered writes without a flush at all: uses of bufio.NewWriter in the writer path must be flushed (checked above when a rename exists)
-	// (e) success returns
+	// (e) success returns of the producer
+	nHit := 0
 	for _, ret := range flow.Returns(fn) {
 		rs := flow.RetResults(ret)
 		if !flow.IsNilConst(rs[len(rs)-1]) {
 			continue
 		}
-		// either the cache-hit return (checked by E3.fullhash) or behind the rename's success edge
-		viaRename := false
-		for _, rn := range renames {
-			if ev := flow.ErrResult(rn); ev != nil {
-				if nn, known := flow.ErrNonNil(flow.DomConds(ret.Block()), ev); known && !nn {
-					viaRename = true
-				}
-			}
-		}
-		cacheHit := isCacheHitReturn(fn, ret, R)
 		if nDirect > 0 {
 			continue // already reported
 		}
-		r.Check((viaRename || cacheHit) && rs[0] == R, "E3.publish", "doObjdump/success-return", p.Pos(ret.Pos()),
+		viaRename := len(renames) > 0 && successDominates(fn, ret.Block(), isPublish, 0)
+		hit := false
+		if !viaRename {
+			hit = checkCacheHit(e, p, fn, ret, isR)
+			if hit {
+				nHit++
+			}
+		}
+		r.Check((viaRename || hit) && rs[0] == R, "E3.publish", D+"/success-return", p.Pos(ret.Pos()),
 			"the cache path is returned only after a successful publish or a validated cache hit", "the cache path is returned on a path that neither published it successfully nor validated it")
 	}
 	r.Floor("E3.publish(writer recognised)", nDirect+len(renames), 1)
+	r.Floor("E3.fullhash(cache-hit returns)", nHit, 1)
 
-	// every fallible call on the writer path has its error returned
+	// every fallible call of the producer and of the path computation has its error returned
 	nF := 0
-	for _, f2 := range p.SrcFuncs(load.PkgProfiler) {
-		if f2 != fn && !reachesFn(fn, f2, map[*ssa.Function]bool{}) {
+	for _, f2 := range []*ssa.Function{fn, flow.Callee(rcall)} {
+		if f2 == nil || len(f2.Blocks) == 0 {
 			continue
 		}
-		if f2.Name() == "cachedDumpFile" || f2 == fn {
-			for _, c := range flow.Calls(f2) {
-				call, ok := c.(*ssa.Call)
-				if !ok || flow.ErrResult(call) == nil || pureFailCall(call) {
-					continue
-				}
-				if f2 == fn && (call == rcall || isRenameOf(call, renames)) {
-					continue
-				}
-				// reader-side calls: os.Open / f.Read errors select the cold path, they are not failures
-				if flow.CalleeIs(call, "os", "Open") || flow.CalleeIs(call, "os", "File.Read") || flow.CalleeIs(call, "io", "ReadFull") {
-					continue
-				}
-				if flow.CalleeIs(call, "os", "Remove") || flow.CalleeIs(call, "os", "File.Close") {
-					continue // cleanup
-				}
-				nF++
-				failEdgeReturnsErrorAllow(e, p, "E3.errbranch", load.FuncName(f2)+"/"+calleeName(call), call, false, cleanupCall)
+		for _, c := range flow.Calls(f2) {
+			call, ok := c.(*ssa.Call)
+			if !ok || flow.ErrResult(call) == nil || pureFailCall(call) {
+				continue
 			}
+			if f2 == fn && (call == rcall || isRenameOf(call, renames)) {
+				continue
+			}
+			// reader-side calls: os.Open / f.Read errors select the cold path, they are not failures
+			if flow.CalleeIs(call, "os", "Open") || flow.CalleeIs(call, "os", "File.Read") || flow.CalleeIs(call, "io", "ReadFull") {
+				continue
+			}
+			if flow.CalleeIs(call, "os", "Remove") || flow.CalleeIs(call, "os", "File.Close") {
+				continue // cleanup
+			}
+			nF++
+			failEdgeReturnsErrorAllow(e, p, "E3.errbranch", load.FuncName(f2)+"/"+calleeName(call), call, false, cleanupCall)
 		}
 	}
 	r.Count("fallible calls on the cache writer path", nF)
-	checkFullHash(e, p, fn, R)
-	// hashBinary is deliberately not subject to E3.errbranch here: see the note below.
-	checkErrBranch(e, p, []*ssa.Function{fn, p.Func(load.PkgProfiler, "cachedDumpFile")}, "profiler cache")
-	if hb := p.Func(load.PkgProfiler, "hashBinary"); hb != nil {
-		for _, ret := range flow.Returns(hb) {
-			rs := flow.RetResults(ret)
-			if flow.IsNilConst(rs[1]) {
-				if k, ok := flow.ConstString(rs[0]); ok && k == "" {
-					r.Note("hashBinary returns (\"\", nil) when reading the binary fails (%s): careless, but an empty hash can never equal the 64-byte marker the reader compares, so nothing stale is reused because of it (not a violation of C17)", p.Pos(ret.Pos()))
+	// the hash is hex(SHA-256)
+	nHash := 0
+	for _, hb := range p.SrcFuncs(load.PkgProfiler) {
+		if len(callsTo(hb, "crypto/sha256", "New"))+len(callsTo(hb, "crypto/sha256", "Sum256")) > 0 {
+			nHash++
+			hexe := len(callsTo(hb, "encoding/hex", "EncodeToString")) > 0
+			r.Check(hexe, "E3.fullhash", "hashBinary/digest", p.Pos(hb.Pos()), "the hash is hex(SHA-256): 64 characters", "the hash function is not hex(SHA-256): the marker length check does not fit")
+			for _, ret := range flow.Returns(hb) {
+				rs := flow.RetResults(ret)
+				if len(rs) == 2 && flow.IsNilConst(rs[1]) {
+					if k, ok := flow.ConstString(rs[0]); ok && k == "" {
+						r.Note("%s returns (\"\", nil) when reading the binary fails (%s): careless, but an empty hash can never equal the 64-byte marker the reader compares, so nothing stale is reused because of it (not a violation of C17)", load.FuncName(hb), p.Pos(ret.Pos()))
+					}
 				}
 			}
 		}
 	}
+	r.Floor("E3.fullhash(hash function)", nHash, 1)
+	// the hash function is deliberately not subject to E3.errbranch here: see the note above.
+	checkErrBranch(e, p, []*ssa.Function{fn, flow.Callee(rcall)}, "profiler cache")
 }
 
 func isRenameOf(c *ssa.Call, renames []*ssa.Call) bool {
@@ -245,13 +384,66 @@ func cleanupCall(c ssa.CallInstruction) bool {
 	return flow.CalleeIs(c, "os", "Remove") || flow.CalleeIs(c, "os", "File.Close") || flow.CalleeIs(c, "os", "File.Name")
 }
 
-// isCacheHitReturn: return R, nil dominated by err==nil (read), n == len(buf), hash == string(buf).
-func isCacheHitReturn(fn *ssa.Function, ret *ssa.Return, R ssa.Value) bool {
-	rs := flow.RetResults(ret)
-	if rs[0] != R {
+// isHashValue: v is the result of a function of the profiler that computes a SHA-256.
+func isHashValue(v ssa.Value) bool {
+	var c *ssa.Call
+	switch x := v.(type) {
+	case *ssa.Extract:
+		c, _ = x.Tuple.(*ssa.Call)
+	case *ssa.Call:
+		c = x
+	}
+	if c == nil {
 		return false
 	}
+	cal := flow.Callee(c)
+	return cal != nil && len(cal.Blocks) > 0 && len(callsTo(cal, "crypto/sha256", "New"))+len(callsTo(cal, "crypto/sha256", "Sum256")) > 0
+}
+
+// checkCacheHit: the success return `ret` of the producer is a validated cache hit: it is dominated by a successful,
+// complete read of a 64-byte marker from the cached file and by its equality with the binary's hash - tested inline or
+// in a boolean helper that receives the cache path.
+func checkCacheHit(e *Env, p *load.Program, fn *ssa.Function, ret *ssa.Return, isR map[ssa.Value]bool) bool {
+	r := e.R
 	conds := flow.DomConds(ret.Block())
+	// helper form: a dominating condition `helper(R, ...)` being true
+	for _, cd := range conds {
+		c := flow.Norm(cd)
+		call, ok := c.V.(*ssa.Call)
+		if !ok || !c.Pol {
+			continue
+		}
+		h := flow.Callee(call)
+		if h == nil || h.Pkg == nil || h.Pkg.Pkg.Path() != load.PkgProfiler || len(h.Blocks) == 0 {
+			continue
+		}
+		takesR := false
+		for _, a := range call.Call.Args {
+			if isR[a] {
+				takesR = true
+			}
+		}
+		if !takesR {
+			continue
+		}
+		all := true
+		n := 0
+		for _, hr := range flow.Returns(h) {
+			rs := flow.RetResults(hr)
+			if len(rs) != 1 {
+				all = false
+				continue
+			}
+			for _, alt := range trueAlternatives(rs[0], hr.Block(), nil, 0) {
+				n++
+				if !readerGuard(e, p, h, alt, hr, load.FuncName(h)) {
+					all = false
+				}
+			}
+		}
+		return all && n > 0
+	}
+	// inline form
 	hasRead := false
 	for _, cd := range conds {
 		bo, ok := cd.V.(*ssa.BinOp)
@@ -266,104 +458,93 @@ func isCacheHitReturn(fn *ssa.Function, ret *ssa.Return, R ssa.Value) bool {
 			}
 		}
 	}
-	return hasRead
+	if !hasRead {
+		r.Note("success return at %s is not dominated by any read of the cached file", p.Pos(ret.Pos()))
+		return false
+	}
+	return readerGuard(e, p, fn, conds, ret, load.FuncName(fn))
 }
 
-// checkFullHash: the reader compares the complete digest.
-func checkFullHash(e *Env, p *load.Program, fn *ssa.Function, R ssa.Value) {
+// readerGuard: under conds (in function f) the marker was read completely and without error into a 64-byte buffer and
+// equals the binary's hash.
+func readerGuard(e *Env, p *load.Program, f *ssa.Function, conds []flow.Cond, at ssa.Instruction, name string) bool {
 	r := e.R
-	n := 0
-	for _, ret := range flow.Returns(fn) {
-		if !isCacheHitReturn(fn, ret, R) {
+	var readCall *ssa.Call
+	var buf ssa.Value
+	for _, c := range flow.Calls(f) {
+		call, ok := c.(*ssa.Call)
+		if !ok {
 			continue
 		}
-		n++
-		conds := flow.DomConds(ret.Block())
-		var readCall *ssa.Call
-		var buf ssa.Value
-		for _, c := range flow.Calls(fn) {
-			call, ok := c.(*ssa.Call)
-			if !ok {
-				continue
-			}
-			if flow.CalleeIs(call, "os", "File.Read") {
-				readCall = call
-				buf = call.Call.Args[1]
-			}
-			if flow.CalleeIs(call, "io", "ReadFull") {
-				readCall = call
-				buf = call.Call.Args[1]
+		if flow.CalleeIs(call, "os", "File.Read") || flow.CalleeIs(call, "io", "ReadFull") {
+			readCall = call
+			buf = call.Call.Args[1]
+		}
+	}
+	if readCall == nil {
+		r.Unknown("E3.fullhash", name+"/read", p.Pos(at.Pos()), "read call not found")
+		return false
+	}
+	// buffer size
+	size := int64(-1)
+	if ms, ok := buf.(*ssa.MakeSlice); ok {
+		size, _ = flow.ConstInt(ms.Len)
+	} else if sl, ok := buf.(*ssa.Slice); ok && sl.Low == nil {
+		// make with a constant length is an array allocation sliced whole
+		if al, ok := sl.X.(*ssa.Alloc); ok {
+			if at, ok := al.Type().Underlying().(*types.Pointer).Elem().Underlying().(*types.Array); ok {
+				size = at.Len()
+				if sl.High != nil {
+					size, _ = flow.ConstInt(sl.High)
+				}
 			}
 		}
-		if readCall == nil {
-			r.Unknown("E3.fullhash", "doObjdump/read", p.Pos(ret.Pos()), "read call not found")
+	}
+	r.Check(size == 64, "E3.fullhash", name+"/buffer-size", p.Pos(readCall.Pos()), "the marker buffer has the length of a hex SHA-256 (64)", fmt.Sprintf("the marker buffer has length %d, a hex SHA-256 has 64 characters: a truncated hash would be accepted or a full one never matched", size))
+	errOK, fullOK, eqOK := false, false, false
+	nRes := flow.ResultN(readCall, 0)
+	eRes := flow.ResultN(readCall, 1)
+	for _, cd := range conds {
+		if eRes != nil {
+			if nn, known := flow.ErrNonNil([]flow.Cond{cd}, eRes); known && !nn {
+				errOK = true
+			}
+		}
+		c := flow.Norm(cd)
+		bo, ok := c.V.(*ssa.BinOp)
+		if !ok {
 			continue
 		}
-		// buffer size
-		size := int64(-1)
-		if ms, ok := buf.(*ssa.MakeSlice); ok {
-			size, _ = flow.ConstInt(ms.Len)
-		} else if sl, ok := buf.(*ssa.Slice); ok && sl.Low == nil {
-			// make with a constant length is an array allocation sliced whole
-			if al, ok := sl.X.(*ssa.Alloc); ok {
-				if at, ok := al.Type().Underlying().(*types.Pointer).Elem().Underlying().(*types.Array); ok {
-					size = at.Len()
-					if sl.High != nil {
-						size, _ = flow.ConstInt(sl.High)
+		isEq := (bo.Op == token.EQL && c.Pol) || (bo.Op == token.NEQ && !c.Pol)
+		if !isEq {
+			continue
+		}
+		for _, pair := range [][2]ssa.Value{{bo.X, bo.Y}, {bo.Y, bo.X}} {
+			// n == len(buf) / n == 64
+			if nRes != nil && pair[0] == nRes {
+				if lc, ok := pair[1].(*ssa.Call); ok {
+					if bi, ok := lc.Call.Value.(*ssa.Builtin); ok && bi.Name() == "len" && lc.Call.Args[0] == buf {
+						fullOK = true
 					}
+				}
+				if k, ok := flow.ConstInt(pair[1]); ok && k == 64 {
+					fullOK = true
+				}
+			}
+			// hash == string(buf)
+			if cv, ok := pair[1].(*ssa.Convert); ok && cv.X == buf {
+				if tracesTo(p, load.PkgProfiler, pair[0], isHashValue, 0) {
+					eqOK = true
 				}
 			}
 		}
-		r.Check(size == 64, "E3.fullhash", "doObjdump/buffer-size", p.Pos(readCall.Pos()), "the marker buffer has the length of a hex SHA-256 (64)", fmt.Sprintf("the marker buffer has length %d, a hex SHA-256 has 64 characters: a truncated hash would be accepted or a full one never matched", size))
-		errOK, fullOK, eqOK := false, false, false
-		nRes := flow.ResultN(readCall, 0)
-		eRes := flow.ResultN(readCall, 1)
-		for _, cd := range conds {
-			bo, ok := cd.V.(*ssa.BinOp)
-			if !ok {
-				continue
-			}
-			if eRes != nil {
-				if nn, known := flow.ErrNonNil([]flow.Cond{cd}, eRes); known && !nn {
-					errOK = true
-				}
-			}
-			// n == len(buf)
-			if bo.Op == token.EQL && cd.Pol {
-				for _, pair := range [][2]ssa.Value{{bo.X, bo.Y}, {bo.Y, bo.X}} {
-					if pair[0] == nRes {
-						if lc, ok := pair[1].(*ssa.Call); ok {
-							if bi, ok := lc.Call.Value.(*ssa.Builtin); ok && bi.Name() == "len" && lc.Call.Args[0] == buf {
-								fullOK = true
-							}
-						}
-						if k, ok := flow.ConstInt(pair[1]); ok && k == 64 {
-							fullOK = true
-						}
-					}
-					// hash == string(buf)
-					if cv, ok := pair[1].(*ssa.Convert); ok && cv.X == buf {
-						if prm, ok := pair[0].(*ssa.Parameter); ok && prm == fn.Params[1] {
-							eqOK = true
-						}
-					}
-				}
-			}
-		}
-		if flow.CalleeIs(readCall, "io", "ReadFull") {
-			fullOK = fullOK || errOK // ReadFull returns an error unless the buffer was filled
-		}
-		r.Check(errOK && fullOK && eqOK, "E3.fullhash", "doObjdump/reuse-guard", p.Pos(ret.Pos()),
-			"reuse is dominated by a successful, complete read of the marker and its equality with the binary's hash",
-			fmt.Sprintf("the cached dump is reused without the full guard (read error checked=%v, complete read=%v, hash equality with the hash parameter=%v)", errOK, fullOK, eqOK))
 	}
-	r.Floor("E3.fullhash(cache-hit returns)", n, 1)
-	// hashBinary produces hex(sha256)
-	if hb := p.Func(load.PkgProfiler, "hashBinary"); hb != nil {
-		sha := len(callsTo(hb, "crypto/sha256", "New")) > 0
-		hexe := len(callsTo(hb, "encoding/hex", "EncodeToString")) > 0
-		r.Check(sha && hexe, "E3.fullhash", "hashBinary/digest", p.Pos(hb.Pos()), "the hash is hex(SHA-256): 64 characters", "hashBinary is not hex(SHA-256): the marker length check does not fit")
+	if flow.CalleeIs(readCall, "io", "ReadFull") {
+		fullOK = fullOK || errOK // ReadFull returns an error unless the buffer was filled
 	}
+	return r.Check(errOK && fullOK && eqOK && size == 64, "E3.fullhash", name+"/reuse-guard", p.Pos(at.Pos()),
+		"reuse is dominated by a successful, complete read of the marker and its equality with the binary's hash",
+		fmt.Sprintf("the cached dump is reused without the full guard (read error checked=%v, complete read=%v, equality with the binary's hash=%v)", errOK, fullOK, eqOK))
 }
 
 // failEdgeReturnsErrorAllow is failEdgeReturnsError with additional calls tolerated on the failure edge.
